@@ -48,8 +48,17 @@ def one(sid):
 def main():
     sd = os.path.join(V, "seeded")
     sids = sorted(x for x in os.listdir(sd) if os.path.exists(os.path.join(sd, x, "patch.diff")))
+    only = [a for a in sys.argv[1:] if not a.startswith("-")]
+    run = [x for x in sids if not only or any(x == o or x.startswith(o) for o in only)]      # a subset: the other rows are re-read
     with cf.ProcessPoolExecutor(max_workers=16) as ex:
-        res = list(ex.map(one, sids))
+        fresh = dict((r[0], r) for r in ex.map(one, run))
+    res = []
+    for x in sids:
+        if x in fresh:
+            res.append(fresh[x])
+        else:
+            mt = json.load(open(os.path.join(sd, x, "meta.json")))
+            res.append((x, mt.get("caught_by", []), mt.get("inconclusive_in", []), mt.get("rules", {})))
     lines = ["# Seeded changes versus checks", "",
              "Each row: a change produced by an independent sub-agent (given only the property text), confirmed by hand-off "
              "verification (demo fails with it / passes without, 66 tests pass), then run against every claimed quick check on a "
